@@ -18,7 +18,8 @@ func init() {
 			"(F) the shared lookup runs only on the error branch of the per-user selection, with the same path; (N) a failed lookup is answered 404 before any store write; " +
 			"(S) shape of the selection function: it calls only strings.HasPrefix, len and fmt.Errorf, reads no package variable and ranges only over slices (determinism); a candidate replaces the current best only if HasPrefix(path, p) holds for the range element p of the current backend's prefixes, and only when there is no best yet or len(p) > len(best prefix) (truth table on the two lengths); the recorded ID and prefix belong to the same backend / the same p; the error return is exactly the no-match case; " +
 			"(C) routing goes straight to the persistent store: the caching store delegates LookupBackend purely and keeps no state. " +
-			"Both loops of the selection (backends × prefixes) are left only when their range is exhausted.",
+			"Both loops of the selection (backends × prefixes) are left only when their range is exhausted. " +
+			"The store call that records liveness runs under the handler's context or the long-poll window derived from it once, outside the loop.",
 		Assumptions: []string{"datastore queries return the registered backends", "time.Since is monotone"},
 		Run:         runC18,
 	})
@@ -26,7 +27,7 @@ func init() {
 
 func runC18(c *Ctx) {
 	p := c.Progs["mod"]
-	c.Rule("C18.L", "liveness gate", 7)
+	c.Rule("C18.L", "liveness gate", 8)
 	c.Rule("C18.F", "shared fallback only when the user has no match", 3)
 	c.Rule("C18.N", "404 when the lookup fails", 1)
 	c.Rule("C18.S", "shape of the most-specific-prefix selection", 7)
@@ -73,6 +74,17 @@ func runC18(c *Ctx) {
 		}
 		if n == 0 {
 			c.Bad("C18.L", fn+":success-returns", p, f.Pos(), "no success return found")
+		}
+	}
+	if f := c.need(p, "C18.L", "app.waitForNextRequests"); f != nil {
+		if lp := c.UniqueCall("C18.L", p, f, false, "("+ModPath+"/app/types.Store).ListPendingRequests"); lp != nil {
+			ctxArg := Args(CallOf(lp))[1]
+			okc := PathOf(ctxArg) == P(f, 0)
+			if wt := CallResult(ctxArg, 0, "context.WithTimeout", "context.WithDeadline", "context.WithCancel"); wt != nil {
+				// the long-poll window itself: derived once, outside the loop, from the handler's context
+				okc = !InLoop(wt.Block()) && PathOf(wt.Call.Args[0]) == P(f, 0)
+			}
+			c.Check("C18.L", "poll:liveness-recorded-under-the-callers-context", p, lp.Pos(), okc, "ListPendingRequests (which also records that the backend was seen) runs under the handler's context / the long-poll window derived from it once", "ListPendingRequests runs under a context derived per iteration ("+PathOf(ctxArg)+"): the store uses that context for the liveness write too, so a short per-poll timeout aborts registerBackendAsSeen on every iteration while the query keeps succeeding — a continuously polling agent is never recorded as live and its users get 404")
 		}
 	}
 	if f := c.need(p, "C18.L", "app/store.(*persistentStore).hasBackend"); f != nil {
@@ -310,7 +322,7 @@ func runC18(c *Ctx) {
 					if SameValue(call.Call.Args[0], newPfx) {
 						lenNew = call
 					}
-					if call.Call.Args[0] == ssa.Value(pfxPhi) {
+					if a, isPhi := call.Call.Args[0].(*ssa.Phi); isPhi && phiWeb(pfxPhi)[a] {
 						lenBest = call
 					}
 				}
@@ -327,7 +339,8 @@ func runC18(c *Ctx) {
 							return IntC(lb), true
 						case hp[0].(ssa.Value):
 							return constant.MakeBool(true), true
-						case ssa.Value(idPhi):
+						}
+						if ph, isPhi := v.(*ssa.Phi); isPhi && phiWeb(idPhi)[ph] {
 							if haveBest {
 								return constant.MakeString("some-backend"), true
 							}
@@ -406,4 +419,32 @@ func firstPosStr(p *Prog, b *ssa.BasicBlock) string {
 		return " (block at " + p.Pos(fp) + ")"
 	}
 	return ""
+}
+
+// phiWeb: the phis connected to ph through phi edges (the SSA names of one
+// loop-carried source variable).
+func phiWeb(ph *ssa.Phi) map[*ssa.Phi]bool {
+	web := map[*ssa.Phi]bool{}
+	if ph == nil {
+		return web
+	}
+	var rec func(x *ssa.Phi)
+	rec = func(x *ssa.Phi) {
+		if web[x] {
+			return
+		}
+		web[x] = true
+		for _, e := range x.Edges {
+			if y, ok := e.(*ssa.Phi); ok {
+				rec(y)
+			}
+		}
+		for _, r := range Refs(x) {
+			if y, ok := r.(*ssa.Phi); ok {
+				rec(y)
+			}
+		}
+	}
+	rec(ph)
+	return web
 }
